@@ -38,7 +38,7 @@ func (p *Program) ShapeOfFunc(fn *ssa.Function) string {
 	n := len(fn.Params)
 	args := make([]string, n)
 	for i := range args {
-		args[i] = fmt.Sprintf("$%d", i)
+		args[i] = fmt.Sprintf("⟨v:$%d⟩", i)
 	}
 	return p.shapeCall(fn, args, 0)
 }
@@ -93,7 +93,7 @@ func (p *Program) shapeExpr(e *Expr, args []string, depth int) string {
 		if args != nil {
 			var i int
 			if _, err := fmt.Sscanf(e.Name, "$%d", &i); err == nil && i < len(args) {
-				return "⟨v:" + args[i] + "⟩"
+				return args[i]
 			}
 		}
 		return "⟨v:" + e.Name + "⟩"
@@ -181,8 +181,7 @@ func (p *Program) shapeExpr(e *Expr, args []string, depth int) string {
 			if fn := p.resolveCallee(&c.Call); fn != nil && inTeleport(fn) && len(fn.Blocks) > 0 && isStringish(fn.Signature.Results()) {
 				as := make([]string, len(e.Args))
 				for i, a := range e.Args {
-					s := stripHole(sub(a))
-					as[i] = s
+					as[i] = sub(a)
 				}
 				return p.shapeCall(fn, as, depth+1)
 			}
@@ -205,6 +204,13 @@ func (p *Program) shapeExpr(e *Expr, args []string, depth int) string {
 		return "⟨v:" + s + "." + e.Name + "⟩"
 	case "slice":
 		return "⟨slice:" + sub(e.Args[0]) + "[" + e.Name + "]⟩"
+	}
+	if args != nil {
+		as := make([]*Expr, len(args))
+		for i, a := range args {
+			as[i] = mk("param", stripHole(a), nil)
+		}
+		return "⟨v:" + substParams(e, as).String() + "⟩"
 	}
 	return "⟨v:" + e.String() + "⟩"
 }
@@ -352,7 +358,7 @@ func (p *Program) storePrefix(e *Expr, args []string, depth int) string {
 		if args != nil {
 			var i int
 			if _, err := fmt.Sscanf(e.Name, "$%d", &i); err == nil && i < len(args) {
-				return "⟨store:" + args[i] + "⟩"
+				return "⟨store:" + stripHole(args[i]) + "⟩"
 			}
 		}
 		return "⟨store:" + e.Name + "⟩"
@@ -361,7 +367,7 @@ func (p *Program) storePrefix(e *Expr, args []string, depth int) string {
 			if fn := p.resolveCallee(&c.Call); fn != nil && inTeleport(fn) && len(fn.Blocks) > 0 {
 				as := make([]string, len(e.Args))
 				for i, a := range e.Args {
-					as[i] = stripHole(p.shapeExpr(a, args, depth))
+					as[i] = p.shapeExpr(a, args, depth)
 				}
 				rets := p.RetExprs(fn, 0)
 				if len(rets) == 1 {
